@@ -2,6 +2,7 @@ import Model.Network
 import Proofs.VJP
 import Proofs.SkipWalk
 import Proofs.SkipLinks
+import Proofs.SkipMLP
 
 /-!
 # C16 — skip connections combine source and target inputs as configured
@@ -436,14 +437,15 @@ open LayerChain SkipWalk SkipNet VJP in
     then `tail`; every layer a link of the chain theorem): forward ends in
     `tail (U body.length (head x))`; backward — which reads the sorted targets of every source from the inverted
     table and adds their processed-input gradients — hands back the gradient of the objective -/
-theorem any_skip_table_network_gradient {a m c : Idx} {ea : Enc a} {em : Enc m} {ec : Enc c}
-    (head : Chain a ea m em) (body : List (Link m em)) (tbl : List (Nat × Nat)) (tail : Chain m em c ec)
-    (n : Network ℝ) (hn : IsDagNet head body tbl tail n) (he : EncAdd em) (x : V a.T)
+theorem any_skip_table_network_gradient {a m c : Idx} {ea : Enc a} {em : Nat → Enc m} {ec : Enc c}
+    (head : Chain a ea m (em 0)) (body : List (Link m)) (tbl : List (Nat × Nat)) (tail : Chain m (em body.length) c ec)
+    (n : Network ℝ) (hn : IsDagNet head body tbl tail n)
+    (hcomp : ∀ t s, Assoc.find? tbl t = some s → Compat (em t) (em s)) (x : V a.T)
     (hrh : Real head x)
-    (hrb : ∀ j (lk : Link m em), body[j]? = some lk → lk.Real (SkipDag.P (dagNet body tbl) j ((gnet head).fwd x)))
+    (hrb : ∀ j (lk : Link m), body[j]? = some lk → lk.Real (em j) (em (j + 1)) (SkipDag.P (dagNet body tbl) j ((gnet head).fwd x)))
     (hrt : Real tail (SkipDag.U (dagNet body tbl) body.length ((gnet head).fwd x)))
     (hh : (gnet head).Ok x)
-    (hb : ∀ j (lk : Link m em), body[j]? = some lk →
+    (hb : ∀ j (lk : Link m), body[j]? = some lk →
       IsVJP lk.f (SkipDag.P (dagNet body tbl) j ((gnet head).fwd x)) (lk.b (SkipDag.P (dagNet body tbl) j ((gnet head).fwd x))))
     (ht : (gnet tail).Ok (SkipDag.U (dagNet body tbl) body.length ((gnet head).fwd x)))
     (ℓ : V c.T → ℝ) (g : V c.T) (hg : IsGrad ℓ (dagFn head body tbl tail x) g) :
@@ -451,27 +453,27 @@ theorem any_skip_table_network_gradient {a m c : Idx} {ea : Enc a} {em : Enc m} 
       n.forward (ea x) = .ok t ∧ t.act.getLast? = some (ec (dagFn head body tbl tail x)) ∧
       n.backward (ec g) t = .ok (ws, bs, gs) ∧ gs.getLast? = some (ea γ) ∧
       IsGrad (ℓ ∘ dagFn head body tbl tail) x γ ∧
-      ∀ r (lk : Link m em), r < body.length → body[body.length - (r + 1)]? = some lk →
+      ∀ r (lk : Link m), r < body.length → body[body.length - (r + 1)]? = some lk →
         ws[(LayerChain.layers tail).length + r]? =
           some (lk.wg (SkipDag.P (dagNet body tbl) (body.length - (r + 1)) ((gnet head).fwd x))
             (handedTo head body tbl tail x g r)).1 ∧
         bs[(LayerChain.layers tail).length + r]? =
           some (lk.wg (SkipDag.P (dagNet body tbl) (body.length - (r + 1)) ((gnet head).fwd x))
             (handedTo head body tbl tail x g r)).2 :=
-  dag_network_gradient head body tbl tail n hn he x hrh hrb hrt hh hb ht ℓ g hg
+  dag_network_gradient head body tbl tail n hn hcomp x hrh hrb hrt hh hb ht ℓ g hg
 
 open LayerChain SkipWalk SkipNet VJP in
 /-- **every weight gradient inside a skip table is the exact derivative**: for the layer at position `c'` of the
     stretch with parameters `θ₀` (`lay θ` = its output on the input it processes, `bθ` its parameter-VJP), the
     network output as a function of `θ` has, composed with the objective, the gradient `bθ` of the gradient the
     reverse walk hands to that layer — whatever the table of connections around and across it -/
-theorem any_skip_table_parameter_gradient {a m c : Idx} {ea : Enc a} {em : Enc m} {ec : Enc c} {π : Type} [Fintype π]
-    (head : Chain a ea m em) (body : List (Link m em)) (tbl : List (Nat × Nat)) (tail : Chain m em c ec)
+theorem any_skip_table_parameter_gradient {a m c : Idx} {ea : Enc a} {em : Nat → Enc m} {ec : Enc c} {π : Type} [Fintype π]
+    (head : Chain a ea m (em 0)) (body : List (Link m)) (tbl : List (Nat × Nat)) (tail : Chain m (em body.length) c ec)
     (n : Network ℝ) (hn : IsDagNet head body tbl tail n) (x : V a.T)
-    (hb : ∀ j (lk : Link m em), body[j]? = some lk →
+    (hb : ∀ j (lk : Link m), body[j]? = some lk →
       IsVJP lk.f (SkipDag.P (dagNet body tbl) j ((gnet head).fwd x)) (lk.b (SkipDag.P (dagNet body tbl) j ((gnet head).fwd x))))
     (ht : (gnet tail).Ok (SkipDag.U (dagNet body tbl) body.length ((gnet head).fwd x)))
-    (c' : Nat) (hc : c' < body.length) (lk : Link m em) (hlk : body[c']? = some lk)
+    (c' : Nat) (hc : c' < body.length) (lk : Link m) (hlk : body[c']? = some lk)
     (lay : V π → V m.T) (bθ : V m.T → V π) (θ₀ : V π)
     (hlay : lay θ₀ = lk.f (SkipDag.P (dagNet body tbl) c' ((gnet head).fwd x))) (hθ : IsVJP lay θ₀ bθ)
     (ℓ : V c.T → ℝ) (g : V c.T) (hg : IsGrad ℓ (dagFn head body tbl tail x) g) :
@@ -511,21 +513,22 @@ theorem resnet_mlp_gradient {n0 m k : ℕ} (n : Network ℝ) (s1 : Stack n0 m)
       n.backward (vecT g) t = .ok (ws, bs, gs) ∧ gs.getLast? = some (vecT γ) ∧ IsGrad (ℓ ∘ F) x γ := by
   intro N F hk1 hkb hk3 hg
   have hy : (gnet (stackChain s1)).fwd x = s1.net.fwd x := stack_gnet_fwd s1 x
-  have hF : ∀ z, dagFn (stackChain s1) (blocks.map denseLink) tbl (stackChain s3) z = F z := by
+  have hF : ∀ z, dagFn (em := fun _ => eVec m) (stackChain s1) (blocks.map denseLink) tbl (stackChain s3) z = F z := by
     intro z
     simp only [dagFn, stack_gnet_fwd, F, N, List.length_map]
-  have hnet : IsDagNet (stackChain s1) (blocks.map denseLink) tbl (stackChain s3) n := by
+  have hnet : IsDagNet (em := fun _ => eVec m) (stackChain s1) (blocks.map denseLink) tbl (stackChain s3) n := by
     refine ⟨?_, ?_, hacc, hlb, hkeys, ?_⟩
     · rw [hl]; simp [stackChain_layers]
     · rw [hc]; simp [stackChain_layers]
     · simpa using hbd
-  have hget : ∀ (j : Nat) (lk : Link (iVec m) (eVec m)), (blocks.map denseLink)[j]? = some lk → ∃ q, blocks[j]? = some q ∧ lk = denseLink q := by
+  have hget : ∀ (j : Nat) (lk : Link (iVec m)), (blocks.map denseLink)[j]? = some lk → ∃ q, blocks[j]? = some q ∧ lk = denseLink q := by
     intro j lk hlk
     rw [List.getElem?_map] at hlk
     cases hq : blocks[j]? with
     | none => rw [hq] at hlk; cases hlk
     | some q => rw [hq] at hlk; simp only [Option.map_some, Option.some.injEq] at hlk; exact ⟨q, rfl, hlk.symm⟩
-  have := dag_network_gradient (stackChain s1) (blocks.map denseLink) tbl (stackChain s3) n hnet (encAdd_vec m) x
+  have := dag_network_gradient (em := fun _ => eVec m) (stackChain s1) (blocks.map denseLink) tbl (stackChain s3) n hnet
+    (fun _ _ _ => compat_of_encAdd (encAdd_vec m)) x
     (stackChain_real s1 x hv1)
     (fun j lk hlk => by
       obtain ⟨q, hq, rfl⟩ := hget j lk hlk
@@ -546,7 +549,7 @@ open LayerChain SkipNet ChainLinks DenseStack in
 /-- non-vacuity: a chain of connections, two connections out of one source and a connection from a layer to
     itself are one admissible table (`(target, source)`, relative to a stretch of four layers) -/
 example (q : Act × VJP.V (Fin 3 × Fin 3) × VJP.Vec 3) :
-    IsDagNet (Chain.nil (iVec 3) (eVec 3)) (List.replicate 4 (denseLink q)) [(1, 0), (2, 0), (3, 3)] (Chain.nil (iVec 3) (eVec 3))
+    IsDagNet (em := fun _ => eVec 3) (Chain.nil (iVec 3) (eVec 3)) (List.replicate 4 (denseLink q)) [(1, 0), (2, 0), (3, 3)] (Chain.nil (iVec 3) (eVec 3))
       { Network.new (.single 3) with
         layers := List.replicate 4 (.dense (denseLayer q.1 q.2.1 q.2.2)),
         connect := [(1, 0), (2, 0), (3, 3)] } := by
@@ -587,15 +590,15 @@ theorem resnet_conv_gradient {c0 h0 w0 f kh0 kw0 h w kh kw f2 kh2 kw2 h2 w2 k : 
   let head := consConv (oh := h) (ow := w) l0 a0 K0 h0 w0 (Chain.nil (iVol f h w) (eVol f h w))
   let tail := consConvFlat (oh := h2) (ow := w2) l2 a2 K2 h w (stackChain s)
   have hyy : (gnet head).fwd x = y := rfl
-  have hF : ∀ z, dagFn head (blocks.map (convLink (h := h) (w := w))) tbl tail z = F z := by
+  have hF : ∀ z, dagFn (em := fun _ => eVol f h w) head (blocks.map (convLink (h := h) (w := w))) tbl tail z = F z := by
     intro z
     simp only [dagFn, head, tail, consConv, consConvFlat, gnet, GNet.fwd, stack_gnet_fwd, F, N, List.length_map]
-  have hnet : IsDagNet head (blocks.map (convLink (h := h) (w := w))) tbl tail n := by
+  have hnet : IsDagNet (em := fun _ => eVol f h w) head (blocks.map (convLink (h := h) (w := w))) tbl tail n := by
     refine ⟨?_, ?_, hacc, hlb, hkeys, ?_⟩
     · rw [hl]; simp [LayerChain.layers, head, tail, consConv, consConvFlat, stackChain_layers]
     · rw [hc]; simp [LayerChain.layers, head, consConv]
     · simpa using hbd
-  have hget : ∀ (j : Nat) (lk : Link (iVol f h w) (eVol f h w)), (blocks.map (convLink (h := h) (w := w)))[j]? = some lk →
+  have hget : ∀ (j : Nat) (lk : Link (iVol f h w)), (blocks.map (convLink (h := h) (w := w)))[j]? = some lk →
       ∃ q, blocks[j]? = some q ∧ lk = convLink q := by
     intro j lk hlk
     rw [List.getElem?_map] at hlk
@@ -604,7 +607,8 @@ theorem resnet_conv_gradient {c0 h0 w0 f kh0 kw0 h w kh kw f2 kh2 kw2 h2 w2 k : 
     | some q => rw [hq] at hlk; simp only [Option.map_some, Option.some.injEq] at hlk; exact ⟨q, rfl, hlk.symm⟩
   have r0 := real_conv l0 a0 K0 hl0 ha0 hf0 x
   have r2 := real_conv_flat l2 a2 K2 hl2 ha2 hf2 (SkipDag.U N blocks.length y)
-  have key := dag_network_gradient head (blocks.map (convLink (h := h) (w := w))) tbl tail n hnet (encAdd_vol f h w hkf hoh) x
+  have key := dag_network_gradient (em := fun _ => eVol f h w) head (blocks.map (convLink (h := h) (w := w))) tbl tail n hnet
+    (fun _ _ _ => compat_of_encAdd (encAdd_vol f h w hkf hoh)) x
   have := key
     (show _ ∧ _ ∧ _ from ⟨r0.1, r0.2, trivial⟩)
     (fun j lk hlk => by
@@ -664,21 +668,21 @@ theorem resnet_mlp_weight_gradient {n0 m k : ℕ} (n : Network ℝ) (s1 : Stack 
     · exact h1
     · rw [List.getElem?_eq_none h1] at hq; cases hq
   have hy : (gnet (stackChain s1)).fwd x = y := stack_gnet_fwd s1 x
-  have hF : ∀ z, dagFn (stackChain s1) (blocks.map denseLink) tbl (stackChain s3) z = F z := by
+  have hF : ∀ z, dagFn (em := fun _ => eVec m) (stackChain s1) (blocks.map denseLink) tbl (stackChain s3) z = F z := by
     intro z
     simp only [dagFn, stack_gnet_fwd, F, N, List.length_map]
-  have hnet : IsDagNet (stackChain s1) (blocks.map denseLink) tbl (stackChain s3) n := by
+  have hnet : IsDagNet (em := fun _ => eVec m) (stackChain s1) (blocks.map denseLink) tbl (stackChain s3) n := by
     refine ⟨?_, ?_, hacc, hlb, hkeys, ?_⟩
     · rw [hl]; simp [stackChain_layers]
     · rw [hc]; simp [stackChain_layers]
     · simpa using hbd
-  have hget : ∀ (j : Nat) (lk : Link (iVec m) (eVec m)), (blocks.map denseLink)[j]? = some lk → ∃ q, blocks[j]? = some q ∧ lk = denseLink q := by
+  have hget : ∀ (j : Nat) (lk : Link (iVec m)), (blocks.map denseLink)[j]? = some lk → ∃ q, blocks[j]? = some q ∧ lk = denseLink q := by
     intro j lk hlk
     rw [List.getElem?_map] at hlk
     cases hq' : blocks[j]? with
     | none => rw [hq'] at hlk; cases hlk
     | some q => rw [hq'] at hlk; simp only [Option.map_some, Option.some.injEq] at hlk; exact ⟨q, rfl, hlk.symm⟩
-  have hb : ∀ j (lk : Link (iVec m) (eVec m)), (blocks.map denseLink)[j]? = some lk →
+  have hb : ∀ j (lk : Link (iVec m)), (blocks.map denseLink)[j]? = some lk →
       IsVJP lk.f (SkipDag.P N j ((gnet (stackChain s1)).fwd x)) (lk.b (SkipDag.P N j ((gnet (stackChain s1)).fwd x))) := by
     intro j lk hlk
     obtain ⟨q, hq', rfl⟩ := hget j lk hlk
@@ -687,7 +691,8 @@ theorem resnet_mlp_weight_gradient {n0 m k : ℕ} (n : Network ℝ) (s1 : Stack 
   have ht : (gnet (stackChain s3)).Ok (SkipDag.U N (blocks.map denseLink).length ((gnet (stackChain s1)).fwd x)) := by
     rw [hy, List.length_map]; exact stackChain_ok s3 _ hv3 hk3
   obtain ⟨t, ws, bs, gs, γ, h1, _, h3, _, _, hw⟩ :=
-    dag_network_gradient (stackChain s1) (blocks.map denseLink) tbl (stackChain s3) n hnet (encAdd_vec m) x
+    dag_network_gradient (em := fun _ => eVec m) (stackChain s1) (blocks.map denseLink) tbl (stackChain s3) n hnet
+    (fun _ _ _ => compat_of_encAdd (encAdd_vec m)) x
     (stackChain_real s1 x hv1)
     (fun j lk hlk => by
       obtain ⟨q, hq', rfl⟩ := hget j lk hlk
@@ -702,15 +707,156 @@ theorem resnet_mlp_weight_gradient {n0 m k : ℕ} (n : Network ℝ) (s1 : Stack 
   rw [hidx, stackChain_layers, hy] at hwc
   have hd : ∀ i, HasDerivAt (Act.f a) (Act.df a (densePre W b (SkipDag.P N c' y) i)) (densePre W b (SkipDag.P N c' y) i) :=
     fun i => DenseStack.act_hasDerivAt a (hvb _ (List.mem_of_getElem? hq)) _ (hkb c' _ hq i)
-  obtain ⟨hval, hgrad⟩ := dag_parameter_gradient (stackChain s1) (blocks.map denseLink) tbl (stackChain s3) n hnet x hb ht c'
+  obtain ⟨hval, hgrad⟩ := dag_parameter_gradient (em := fun _ => eVec m) (stackChain s1) (blocks.map denseLink) tbl (stackChain s3) n hnet x hb ht c'
     (by rw [List.length_map]; exact hcl) (denseLink (a, W, b)) hlk lay bθ W (by rw [hy]; rfl)
     (dense_vjp_weights (Act.f a) (Act.df a) W b (SkipDag.P N c' y) hd) ℓ g (by rw [hF]; exact hg)
-  have hfun : dagParamFn (stackChain s1) (blocks.map denseLink) tbl (stackChain s3) c' lay bθ x = FW := by
+  have hfun : dagParamFn (em := fun _ => eVec m) (stackChain s1) (blocks.map denseLink) tbl (stackChain s3) c' lay bθ x = FW := by
     funext W'
     simp only [dagParamFn, FW, stack_gnet_fwd, hy, List.length_map, N]
   rw [hfun] at hval hgrad
   rw [List.length_map] at hgrad
   refine ⟨t, ws, bs, gs, _, h1, h3, hwc, ?_, fun p => hgrad.partial p⟩
   rw [hval, hF]
+
+open LayerChain SkipWalk SkipNet SkipPad SkipMLP VJP ChainLinks DenseStack DenseBridge in
+theorem mlp_any_widths_skips_aux {W : ℕ} (n : Network ℝ) (ds : List (DLayer W)) (tbl : List (Nat × Nat))
+    (L : Nat) (hL : (ds.map dlink).length = L)
+    (hl : n.layers = ds.map (fun d => .dense (denseLayer d.a d.Wt d.b)))
+    (hc : n.connect = tbl) (hacc : n.skipaccumulation = .add) (hlb : n.loopbacks = [])
+    (hkeys : (tbl.map Prod.fst).Nodup) (hbd : ∀ e ∈ tbl, e.2 ≤ e.1 ∧ e.1 < ds.length)
+    (hw : ∀ e ∈ tbl, slotAt ds e.1 = slotAt ds e.2)
+    (hfit : Fits ds) (hv : ∀ d ∈ ds, d.Valid)
+    (x₀ : Vec (slotAt ds 0).val) (ℓ : Vec (slotAt ds L).val → ℝ) (g₀ : Vec (slotAt ds L).val) :
+    let N := dagNet (ds.map dlink) tbl
+    let F := fun z : Vec (slotAt ds 0).val => proj (TW W) (slotAt ds L) (SkipDag.U N L (emb (TW W) (slotAt ds 0) z))
+    (∀ (j : Nat) d, ds[j]? = some d → ∀ i, NoKink d.a (densePre d.Wt d.b (proj (TW W) d.k₁ (SkipDag.P N j (emb (TW W) (slotAt ds 0) x₀))) i)) →
+    IsGrad ℓ (F x₀) g₀ →
+    ∃ t ws bs gs γ,
+      n.forward (vecT x₀) = .ok t ∧ t.act.getLast? = some (vecT (F x₀)) ∧
+      n.backward (vecT g₀) t = .ok (ws, bs, gs) ∧ gs.getLast? = some (vecT γ) ∧ IsGrad (ℓ ∘ F) x₀ γ := by
+  subst hL
+  intro N F hk hg
+  let head : Chain (UIdx (TW W)) (emW ds 0) (UIdx (TW W)) (emW ds 0) := Chain.nil _ _
+  let tail : Chain (UIdx (TW W)) (emW ds (ds.map dlink).length) (UIdx (TW W)) (emW ds (ds.map dlink).length) := Chain.nil _ _
+  have hnet : IsDagNet (em := emW ds) head (ds.map dlink) tbl tail n := by
+    refine ⟨?_, ?_, hacc, hlb, hkeys, ?_⟩
+    · rw [hl]; simp [LayerChain.layers, head, tail, dlink, liftLink]
+    · rw [hc]
+      simp only [LayerChain.layers, head, List.length_nil]
+      have : shift 0 = id := by funext e; simp [shift]
+      rw [this, List.map_id]
+    · simpa using hbd
+  have hget : ∀ (j : Nat) (lk : Link (UIdx (TW W))), (ds.map dlink)[j]? = some lk → ∃ d, ds[j]? = some d ∧ lk = dlink d := by
+    intro j lk hlk
+    rw [List.getElem?_map] at hlk
+    cases hq : ds[j]? with
+    | none => rw [hq] at hlk; cases hlk
+    | some d => rw [hq] at hlk; simp only [Option.map_some, Option.some.injEq] at hlk; exact ⟨d, rfl, hlk.symm⟩
+  have hcomp : ∀ t s, Assoc.find? tbl t = some s → Compat (emW ds t) (emW ds s) := by
+    intro t s hts
+    have := hw (t, s) (SkipTable.find?_mem tbl t s hts)
+    simp only at this
+    unfold emW
+    rw [this]
+    exact compat_same (TW W) encW _ (encAdd_W _)
+  have hF' : ∀ z, proj (TW W) (slotAt ds (ds.map dlink).length)
+      (dagFn (em := emW ds) head (ds.map dlink) tbl tail (emb (TW W) (slotAt ds 0) z)) = F z := by
+    intro z
+    simp only [dagFn, head, tail, gnet, GNet.fwd, F, N]
+  have hgU : IsGrad (ℓ ∘ proj (TW W) (slotAt ds (ds.map dlink).length))
+      (dagFn (em := emW ds) head (ds.map dlink) tbl tail (emb (TW W) (slotAt ds 0) x₀)) (emb (TW W) (slotAt ds (ds.map dlink).length) g₀) :=
+    IsGrad.comp_vjp (isVJP_proj (TW W) (slotAt ds (ds.map dlink).length) _) (by rw [hF']; exact hg)
+  obtain ⟨t, ws, bs, gs, γ, h1, h2, h3, h4, h5, _⟩ :=
+    dag_network_gradient (em := emW ds) head (ds.map dlink) tbl tail n hnet hcomp (emb (TW W) (slotAt ds 0) x₀)
+      trivial
+      (fun j lk hlk => by
+        obtain ⟨d, hd, rfl⟩ := hget j lk hlk
+        exact dlink_real ds hfit j d hd (hv d (List.mem_of_getElem? hd)) _)
+      trivial trivial
+      (fun j lk hlk => by
+        obtain ⟨d, hd, rfl⟩ := hget j lk hlk
+        exact dlink_vjp d (hv d (List.mem_of_getElem? hd)) _ (hk j d hd))
+      trivial (ℓ ∘ proj (TW W) (slotAt ds (ds.map dlink).length)) (emb (TW W) (slotAt ds (ds.map dlink).length) g₀) hgU
+  refine ⟨t, ws, bs, gs, proj (TW W) (slotAt ds 0) γ, ?_, ?_, ?_, ?_, ?_⟩
+  · have : emW ds 0 (emb (TW W) (slotAt ds 0) x₀) = vecT x₀ := by
+      simp only [emW, encAt, encW, proj_emb]
+    rw [← this]; exact h1
+  · rw [h2]
+    simp only [emW, encAt, encW, ← hF']
+  · have : emW ds (ds.map dlink).length (emb (TW W) (slotAt ds (ds.map dlink).length) g₀) = vecT g₀ := by
+      simp only [emW, encAt, encW, proj_emb]
+    rw [← this]; exact h3
+  · rw [h4]
+    simp only [emW, encAt, encW]
+  · have h6 := IsGrad.comp_vjp (isVJP_emb (TW W) (slotAt ds 0) x₀) h5
+    have : (ℓ ∘ proj (TW W) (slotAt ds (ds.map dlink).length) ∘ dagFn (em := emW ds) head (ds.map dlink) tbl tail) ∘ emb (TW W) (slotAt ds 0) = ℓ ∘ F := by
+      funext z
+      simp only [Function.comp_apply, hF']
+    rw [← this]
+    exact h6
+
+open LayerChain SkipWalk SkipNet SkipPad SkipMLP VJP ChainLinks DenseStack DenseBridge in
+/-- **instance: perceptrons of ARBITRARY widths with any table of additive skip connections** — the layers `ds`
+    (widths ≤ `W`, consecutive layers fitting) are the whole network; the table `tbl` of `(target, source)` pairs has
+    distinct targets, sources not after targets, and connects positions of equal width.  Vectors of width `k` live
+    in slot `k` of the universal index type `Σ k, Fin k` (zero elsewhere); `U` is the value recursion of
+    `skip_values_spec` with layer `j` acting as "read slot `k₁`, apply the dense layer, write slot `k₂`".
+    `Network.forward` on `x₀` ends in the network function's value, and the last gradient `Network.backward` hands on
+    is the gradient of the objective with respect to `x₀`. -/
+theorem mlp_any_widths_skips_gradient {W : ℕ} (n : Network ℝ) (ds : List (DLayer W)) (tbl : List (Nat × Nat))
+    (hl : n.layers = ds.map (fun d => .dense (denseLayer d.a d.Wt d.b)))
+    (hc : n.connect = tbl) (hacc : n.skipaccumulation = .add) (hlb : n.loopbacks = [])
+    (hkeys : (tbl.map Prod.fst).Nodup) (hbd : ∀ e ∈ tbl, e.2 ≤ e.1 ∧ e.1 < ds.length)
+    (hw : ∀ e ∈ tbl, slotAt ds e.1 = slotAt ds e.2)
+    (hfit : Fits ds) (hv : ∀ d ∈ ds, d.Valid)
+    (x₀ : Vec (slotAt ds 0).val) (ℓ : Vec (slotAt ds ds.length).val → ℝ) (g₀ : Vec (slotAt ds ds.length).val) :
+    let N := dagNet (ds.map dlink) tbl
+    let F := fun z : Vec (slotAt ds 0).val => proj (TW W) (slotAt ds ds.length) (SkipDag.U N ds.length (emb (TW W) (slotAt ds 0) z))
+    (∀ (j : Nat) d, ds[j]? = some d → ∀ i, NoKink d.a (densePre d.Wt d.b (proj (TW W) d.k₁ (SkipDag.P N j (emb (TW W) (slotAt ds 0) x₀))) i)) →
+    IsGrad ℓ (F x₀) g₀ →
+    ∃ t ws bs gs γ,
+      n.forward (vecT x₀) = .ok t ∧ t.act.getLast? = some (vecT (F x₀)) ∧
+      n.backward (vecT g₀) t = .ok (ws, bs, gs) ∧ gs.getLast? = some (vecT γ) ∧ IsGrad (ℓ ∘ F) x₀ γ :=
+  mlp_any_widths_skips_aux n ds tbl ds.length (List.length_map _) hl hc hacc hlb hkeys hbd hw hfit hv x₀ ℓ g₀
+
+open SkipNet SkipPad SkipMLP VJP DenseStack DenseBridge in
+/-- what layer `j` of such a perceptron does to the padded vectors: read slot `k₁`, apply the dense layer, write
+    slot `k₂` (every other slot zero) -/
+theorem mlp_padded_layer_step {W : ℕ} (ds : List (DLayer W)) (tbl : List (Nat × Nat)) (j : Nat) (d : DLayer W)
+    (hd : ds[j]? = some d) (x : V (Σ k, TW W k)) :
+    SkipDag.U (dagNet (ds.map dlink) tbl) (j + 1) x =
+      emb (TW W) d.k₂ (denseFn (Act.f d.a) d.Wt d.b (proj (TW W) d.k₁ (SkipDag.P (dagNet (ds.map dlink) tbl) j x))) := by
+  rw [SkipDag.U_succ]
+  simp only [dagNet, List.getElem?_map, hd, Option.map_some]
+  rfl
+
+open SkipMLP DenseStack in
+/-- non-vacuity: widths 3 → 2 → 2 → 1 with a connection from position 1 to position 2 (both of width 2) -/
+example :
+    let d0 : DLayer 3 := ⟨3, 2, .tanh, fun _ => 1, fun _ => 0⟩
+    let d1 : DLayer 3 := ⟨2, 2, .sigmoid, fun _ => 1, fun _ => 0⟩
+    let d2 : DLayer 3 := ⟨2, 1, .linear, fun _ => 1, fun _ => 0⟩
+    Fits [d0, d1, d2] ∧ (∀ d ∈ [d0, d1, d2], d.Valid) ∧
+    (∀ e ∈ [((2 : Nat), (1 : Nat))], slotAt [d0, d1, d2] e.1 = slotAt [d0, d1, d2] e.2) ∧
+    (∀ e ∈ [((2 : Nat), (1 : Nat))], e.2 ≤ e.1 ∧ e.1 < [d0, d1, d2].length) := by
+  intro d0 d1 d2
+  refine ⟨?_, ?_, ?_, ?_⟩
+  · intro j d d' h1 h2
+    match j, h1, h2 with
+    | 0, h1, h2 => simp at h1 h2; subst h1; subst h2; rfl
+    | 1, h1, h2 => simp at h1 h2; subst h1; subst h2; rfl
+    | 2, h1, h2 => simp at h2
+    | j + 3, h1, _ => simp at h1
+  · intro d hd
+    simp only [List.mem_cons, List.not_mem_nil, or_false] at hd
+    rcases hd with rfl | rfl | rfl <;> exact ⟨by decide, by decide, by decide⟩
+  · intro e he
+    simp only [List.mem_singleton] at he
+    subst he
+    rfl
+  · intro e he
+    simp only [List.mem_singleton] at he
+    subst he
+    decide
 
 end C16
